@@ -21,7 +21,7 @@ RULE = (
 )
 ASSUMPTIONS = ["runs whose Schulz-Zimm draw raises (C11 known finding) are skipped and counted", "only graphs built with Schulz-Zimm distributions can be generated (library limitation)"]
 FLOORS = {"quick": {"molecules_audited": 700, "distinct_nontrivial": 100, "equal_seed_pairs": 100}, "thorough": {"molecules_audited": 15000}}
-LINE_BUDGET = 40_000_000
+LINE_BUDGET = 6_000_000
 
 
 def plan(tier, seed):
@@ -168,6 +168,9 @@ def search_partition(G, tmpl, node_tok, tok_atoms, static, verify, budget=3000):
         want = set(tok_atoms[key])
 
         def extend(grp, have):
+            state["n"] += 1
+            if state["n"] > budget:
+                raise TimeoutError
             if have == want:
                 yield list(grp)
                 return
@@ -204,7 +207,7 @@ def generate(sag, rng):
     from gbigsmiles import AtomGraph
 
     ag = AtomGraph(sag, rng=rng)
-    with time_limit(12):
+    with time_limit(40):
         with steps.line_budget(LINE_BUDGET):
             ag.generate()
     return ag
@@ -303,6 +306,8 @@ def run_case(case):
 
             for rg, out in R.enumerate_paths(run, limit=case["limit"], default_q=q):
                 paths += 1
+                if cnt["watchdog"] >= 2 or len([v for v in viol if v["cls"] == "c18.does-not-terminate"]) >= 2:
+                    break
             if R.enumerate_paths.last["complete"]:
                 cnt["enum_complete"] += 1
             else:
@@ -318,4 +323,6 @@ def run_case(case):
         if seen[v["cls"]] <= 5:
             out.append(v)
     res = {"viol": out, "nt": sorted(nt), "cnt": dict(cnt), "sample": sample}
+    if cnt["watchdog"]:
+        res["inconclusive"] = f"{cnt['watchdog']} generations hit the wall-clock watchdog before the logical line budget"
     return res
